@@ -20,6 +20,7 @@ phase can be compared where it is defined.
 """
 from __future__ import annotations
 
+import math
 from typing import Dict, List, Optional, Sequence, Tuple
 
 import numpy as np
@@ -79,15 +80,21 @@ class Space:
 
 
 class Branch:
-    __slots__ = ("prob", "rho", "psi", "records", "channel_records", "hidden")
+    __slots__ = ("prob", "_rho", "psi", "records", "channel_records", "hidden")
 
     def __init__(self, prob, rho, psi, records, channel_records, hidden=()):
         self.prob = prob
-        self.rho = rho            # normalised density matrix (D x D)
+        self._rho = rho           # normalised density matrix (D x D); None = |psi><psi|, built on demand
         self.psi = psi            # normalised state vector or None (mixed)
         self.records = records    # dict key -> tuple of digit tuples (one per instance)
         self.channel_records = channel_records   # dict key -> tuple of ints
         self.hidden = hidden
+
+    @property
+    def rho(self):
+        if self._rho is None:
+            self._rho = np.outer(self.psi, self.psi.conj())
+        return self._rho
 
     def fork(self, prob, rho, psi):
         return Branch(prob, rho, psi, dict(self.records), dict(self.channel_records), self.hidden)
@@ -102,12 +109,12 @@ def initial_branch(space: Space, initial_state) -> Branch:
     if isinstance(initial_state, (int, np.integer)):
         psi = np.zeros(D, dtype=np.complex128)
         psi[int(initial_state)] = 1.0
-        return Branch(1.0, np.outer(psi, psi.conj()), psi, {}, {})
+        return Branch(1.0, None, psi, {}, {})
     arr = np.asarray(initial_state, dtype=np.complex128)
     if arr.size == D:
         psi = arr.reshape(D)
         psi = psi / np.linalg.norm(psi)
-        return Branch(1.0, np.outer(psi, psi.conj()), psi, {}, {})
+        return Branch(1.0, None, psi, {}, {})
     if arr.size == D * D:
         rho = arr.reshape(D, D)
         return Branch(1.0, rho / np.trace(rho).real, None, {}, {})
@@ -159,16 +166,25 @@ def eval_condition(cond, records: Dict[str, tuple], record_dims: Dict[str, tuple
 # -- the interpreter ------------------------------------------------------------------------------------------
 
 class QRef:
-    def __init__(self, qubits: Sequence[cirq.Qid], max_branches: int = 4096):
+    def __init__(self, qubits: Sequence[cirq.Qid], max_branches: int = 4096, record_channels: bool = True,
+                 branch_mixtures: bool = False):
+        # branch_mixtures: unravel probabilistic mixtures of unitaries into hidden pure branches (used
+        # where the system under test keeps a pure state and picks one unitary, e.g. stabilizer states)
+        self.branch_mixtures = branch_mixtures
+        # record_channels: trajectory simulators select one Kraus operator of a keyed channel and store
+        # its index under the key; the density-matrix simulator applies the whole channel and stores
+        # nothing (KrausChannel / MixedUnitaryChannel document exactly this)
+        self.record_channels = record_channels
         self.space = Space(qubits)
         self.max_branches = max_branches
         self.record_dims: Dict[str, tuple] = {}
 
     # operator application ------------------------------------------------------------------------------------
     def _apply_unitary(self, b: Branch, u_full: np.ndarray) -> Branch:
-        psi = u_full @ b.psi if b.psi is not None else None
+        if b.psi is not None:
+            return b.fork(b.prob, None, u_full @ b.psi)
         rho = u_full @ b.rho @ u_full.conj().T
-        return b.fork(b.prob, rho, psi)
+        return b.fork(b.prob, rho, None)
 
     def _apply_kraus(self, b: Branch, ks_full: List[np.ndarray]) -> Branch:
         rho = sum(k @ b.rho @ k.conj().T for k in ks_full)
@@ -181,16 +197,20 @@ class QRef:
         out = []
         for outcome in np.ndindex(*tdims):
             mask = sp.projector_mask(targets, outcome)
+            if b.psi is not None:
+                p = float(np.sum(np.abs(b.psi[mask]) ** 2))
+                if p <= PRUNE:
+                    continue
+                psi = np.where(mask, b.psi, 0)
+                psi = psi / np.linalg.norm(psi)
+                out.append((tuple(int(x) for x in outcome), b.fork(b.prob * p, None, psi)))
+                continue
             p = float(np.real(np.sum(np.diag(b.rho)[mask])))
             if p <= PRUNE:
                 continue
             rho = b.rho * (mask[:, None] & mask[None, :])
             rho = rho / p
-            psi = None
-            if b.psi is not None:
-                psi = np.where(mask, b.psi, 0)
-                psi = psi / np.linalg.norm(psi)
-            out.append((tuple(int(x) for x in outcome), b.fork(b.prob * p, rho, psi)))
+            out.append((tuple(int(x) for x in outcome), b.fork(b.prob * p, rho, None)))
         return out
 
     # one operation ---------------------------------------------------------------------------------------------
@@ -222,22 +242,35 @@ class QRef:
         if cirq.has_unitary(untagged):
             u = cirq.unitary(untagged)
             return [self._apply_unitary(b, sp.embed(u, targets))]
-        if cirq.is_measurement(untagged) and cirq.has_kraus(untagged):
+        if self.record_channels and cirq.is_measurement(untagged) and cirq.has_kraus(untagged):
             # keyed channel: the Kraus index is recorded
             ks = [sp.embed(k, targets) for k in cirq.kraus(untagged)]
             key = _key_str(cirq.measurement_key_name(untagged))
             res = []
             for i, k in enumerate(ks):
-                rho = k @ b.rho @ k.conj().T
-                p = np.trace(rho).real
-                if p <= PRUNE:
-                    continue
-                psi = None
                 if b.psi is not None:
                     psi = k @ b.psi
-                    psi = psi / np.linalg.norm(psi)
-                nb = b.fork(b.prob * p, rho / p, psi)
+                    p = float(np.vdot(psi, psi).real)
+                    if p <= PRUNE:
+                        continue
+                    nb = b.fork(b.prob * p, None, psi / math.sqrt(p))
+                else:
+                    rho = k @ b.rho @ k.conj().T
+                    p = np.trace(rho).real
+                    if p <= PRUNE:
+                        continue
+                    nb = b.fork(b.prob * p, rho / p, None)
                 nb.channel_records[key] = nb.channel_records.get(key, ()) + (i,)
+                res.append(nb)
+            return res
+        if self.branch_mixtures and cirq.has_mixture(untagged):
+            res = []
+            for j, (pm, u) in enumerate(cirq.mixture(untagged)):
+                if pm <= PRUNE:
+                    continue
+                nb = self._apply_unitary(b, sp.embed(u, targets))
+                nb.prob = b.prob * float(pm)
+                nb.hidden = b.hidden + (j,)
                 res.append(nb)
             return res
         if cirq.has_kraus(untagged):
@@ -275,7 +308,7 @@ class QRef:
                 confused = nxt
             for bits, w in confused:
                 rec = tuple(int(bit ^ 1) if (m and bit < 2) else int(bit) for bit, m in zip(bits, mask))
-                fb = nb.fork(nb.prob * w, nb.rho, nb.psi)
+                fb = nb.fork(nb.prob * w, nb._rho, nb.psi)
                 fb.records[key] = fb.records.get(key, ()) + (rec,)
                 res.append(fb)
         return res
@@ -298,15 +331,18 @@ class QRef:
         ident = np.eye(sp.D, dtype=complex)
         res = []
         for bit, proj in ((0, (ident + full) / 2), (1, (ident - full) / 2)):
-            rho = proj @ b.rho @ proj
-            p = np.trace(rho).real
-            if p <= PRUNE:
-                continue
-            psi = None
             if b.psi is not None:
                 psi = proj @ b.psi
-                psi = psi / np.linalg.norm(psi)
-            nb = b.fork(b.prob * p, rho / p, psi)
+                p = float(np.vdot(psi, psi).real)
+                if p <= PRUNE:
+                    continue
+                nb = b.fork(b.prob * p, None, psi / math.sqrt(p))
+            else:
+                rho = proj @ b.rho @ proj
+                p = np.trace(rho).real
+                if p <= PRUNE:
+                    continue
+                nb = b.fork(b.prob * p, rho / p, None)
             nb.records[key] = nb.records.get(key, ()) + ((bit,),)
             res.append(nb)
         return res
